@@ -33,6 +33,36 @@ Theorem C07_origin_check : forall sc h p allowed,
 Proof. exact is_same_origin_spec. Qed.
 Print Assumptions C07_origin_check.
 
+(* ---- the origin is the TRIPLE (scheme, host, port-or-absent) ---- *)
+(* _url_to_origin keeps an explicit port verbatim - also the falsy 0 -, fills in the scheme's default (http 80, https 443,
+   otherwise none) only when the port is ABSENT, and yields no origin when urlsplit refuses the port (non-numeric, > 65535) *)
+Theorem C07_origin_triple : forall us url sc h p,
+  url_to_origin us url = Some (OTriple sc h p) <->
+  lower url <> NULL_S /\
+  exists sc0 pr, us url = UsOk sc0 (Some h) pr /\ sc = lower sc0 /\ sc <> FILE_S /\ h <> [] /\
+    ((exists q, pr = PortSome q /\ p = Some q) \/ (pr = PortNone /\ p = default_port sc)).
+Proof. exact url_to_origin_triple. Qed.
+Print Assumptions C07_origin_triple.
+
+(* the string that is matched determines the triple: equal scheme and host, different port (0 vs 80, 80 vs absent-without-
+   default, ...) => different string; and for ':'-free schemes and hosts the string determines all three components *)
+Theorem C07_origin_port_distinguished : forall sc h p q, origin_header sc h p = origin_header sc h q -> p = q.
+Proof. exact origin_header_port_inj. Qed.
+Print Assumptions C07_origin_port_distinguished.
+
+Theorem C07_origin_rendering_injective : forall sc h p sc' h' p',
+  ~ In 58 sc -> ~ In 58 sc' -> ~ In 58 h -> ~ In 58 h' ->
+  origin_header sc h p = origin_header sc' h' p' -> sc = sc' /\ h = h' /\ p = p'.
+Proof. exact origin_header_inj. Qed.
+Print Assumptions C07_origin_rendering_injective.
+
+(* an allow-list entry without '*' that spells out (scheme', host', port') admits exactly that triple *)
+Theorem C07_origin_whole_triple : forall sc h p sc' h' p',
+  ~ In 58 sc -> ~ In 58 sc' -> ~ In 58 h -> ~ In 58 h' -> ~ In 42 sc' -> ~ In 42 h' ->
+  (is_same_origin (OTriple sc h p) [origin_header sc' h' p'] = true <-> sc = sc' /\ h = h' /\ p = p').
+Proof. exact same_origin_literal_triple. Qed.
+Print Assumptions C07_origin_whole_triple.
+
 (* ---- never an exception, for all octets, all segmentations, all oracle behaviours (incl. raising) ---- *)
 Theorem C07_total_server : forall c e chunks x, s_result (s_run c e chunks) <> SEscaped x.
 Proof. exact s_run_never_escapes. Qed.
@@ -356,3 +386,16 @@ Example C07_witness_url :
                               c_protocols := []; c_headers := []; c_version := 18%Z; c_offers := [] |} []) =
       lit "GET /chat%20room/a%2Fb?token=x%26y&lang=en HTTP/1.1".
 Proof. vm_compute. eexists. repeat split; reflexivity. Qed.
+
+(* boundary ports against an allow-list naming the default port: absent and explicit 80 are admitted, explicit 0 / 1 / 65535
+   and an unparsable port are not; ":*" admits every explicit port including 0 *)
+Example C07_witness_origin_ports :
+  let us p := fun _ : str => UsOk (lit "HTTP") (Some (lit "example.com")) p in
+  let allowed := [lit "http://example.com:80"] in
+  let verdict p := match url_to_origin (us p) (lit "x") with Some o => is_same_origin o allowed | None => false end in
+  verdict PortNone = true /\ verdict (PortSome 80%Z) = true /\ verdict (PortSome 0%Z) = false /\ verdict (PortSome 1%Z) = false /\
+  verdict (PortSome 443%Z) = false /\ verdict (PortSome 65535%Z) = false /\ verdict PortRaises = false /\
+  url_to_origin (us (PortSome 0%Z)) (lit "x") = Some (OTriple (lit "http") (lit "example.com") (Some 0%Z)) /\
+  is_same_origin (OTriple (lit "http") (lit "example.com") (Some 0%Z)) [lit "http://example.com:*"] = true /\
+  is_same_origin (OTriple (lit "ws") (lit "example.com") None) [lit "ws://example.com:80"] = false.
+Proof. vm_compute. repeat split; reflexivity. Qed.
